@@ -193,7 +193,7 @@ def aff_event(x, bits, axis, gs, tag=None, optimizer=None):
     if list(dq.shape) == list(x.shape):
         for g in abstract_groups(list(x.shape), axis, gs):
             groups.append({"x": [big(xs[p], E) for p in g], "dq": [big(dqs[p], E) for p in g]})
-    ev = {"act": "AffW", "bits": bits, "fmt": fmt, "E": E, "eta_shift": ETA[fmt] - E, "axis": axis,
+    ev = {"act": "AffW", "bits": bits, "fmt": fmt, "E": E, "eta_shift": ETA[fmt] - E, "nmin_shift": EMIN[fmt] - E, "axis": axis,
           "gs": gs if gs is not None else "none", "groups": groups, "shape": list(x.shape),
           "out_shape": list(dq.shape), "out_dtype": FMT_NAME.get(dq.dtype, str(dq.dtype)),
           "payload_equal": bool(torch.equal(q._data._data, q2._data._data)),
